@@ -51,6 +51,16 @@ const MAX_VALUE_SIZE: usize = 512;
 /// Messages larger than this are rejected before deserialization
 const MAX_MESSAGE_SIZE: usize = 64 * 1024;
 
+/// The first eight characters of a peer id, for log lines. Ids named in replies are
+/// chosen by the remote peer and need not be ASCII, so they must never be cut at a byte
+/// offset: `&id[..8]` panics when byte 8 falls inside a multi-byte character.
+fn short_peer_id(id: &str) -> &str {
+    match id.char_indices().nth(8) {
+        Some((end, _)) => &id[..end],
+        None => id,
+    }
+}
+
 /// Number of closest nodes to return in DHT lookups (Kademlia K parameter)
 const DHT_CLOSEST_NODES_COUNT: usize = 8;
 
@@ -966,7 +976,7 @@ impl DhtNetworkManager {
                 batch.len(),
                 batch
                     .iter()
-                    .map(|n| format!("{}@{}", &n.peer_id[..8.min(n.peer_id.len())], &n.address))
+                    .map(|n| format!("{}@{}", short_peer_id(&n.peer_id), &n.address))
                     .collect::<Vec<_>>()
             );
 
@@ -995,7 +1005,7 @@ impl DhtNetworkManager {
                 info!(
                     "[ITERATIVE LOOKUP] {}: Got result from {}: {:?}",
                     self.config.local_peer_id,
-                    &peer_id[..8.min(peer_id.len())],
+                    short_peer_id(&peer_id),
                     result.as_ref().map(std::mem::discriminant)
                 );
 
@@ -1027,13 +1037,13 @@ impl DhtNetworkManager {
                         info!(
                             "[ITERATIVE LOOKUP] {}: Peer {} returned {} closer nodes: {:?}",
                             self.config.local_peer_id,
-                            &peer_id[..8.min(peer_id.len())],
+                            short_peer_id(&peer_id),
                             nodes.len(),
                             nodes
                                 .iter()
                                 .map(|n| format!(
                                     "{}@{}",
-                                    &n.peer_id[..8.min(n.peer_id.len())],
+                                    short_peer_id(&n.peer_id),
                                     &n.address
                                 ))
                                 .collect::<Vec<_>>()
@@ -1050,7 +1060,7 @@ impl DhtNetworkManager {
                                 trace!(
                                     "Candidate queue at capacity ({}), preserving oldest entries and dropping {}",
                                     MAX_CANDIDATE_NODES,
-                                    &node.peer_id[..8.min(node.peer_id.len())]
+                                    short_peer_id(&node.peer_id)
                                 );
                                 continue;
                             }
@@ -1465,7 +1475,7 @@ impl DhtNetworkManager {
                                     trace!(
                                         "[NETWORK] Candidate queue at capacity ({}), dropping {}",
                                         MAX_CANDIDATE_NODES,
-                                        &node.peer_id[..8.min(node.peer_id.len())]
+                                        short_peer_id(&node.peer_id)
                                     );
                                     continue;
                                 }
@@ -1523,7 +1533,7 @@ impl DhtNetworkManager {
             best_nodes.len(),
             best_nodes
                 .iter()
-                .map(|n| &n.peer_id[..8.min(n.peer_id.len())])
+                .map(|n| short_peer_id(&n.peer_id))
                 .collect::<Vec<_>>()
         );
 
